@@ -246,7 +246,9 @@ func execStep(mgr *server.Manager, cmd [][]byte) (out string) {
 // background commands (same layout as S, chronological), the S line, and "T <unix ms at which the
 // C command returned>".
 //
-// The same Manager is shared by all connections of a case (as server.Start does).
+// The Manager (the databases) is shared by all connections of a case, as server.Start does; every
+// connection id gets its own NewConnView(), as server.Manager.Handle does, so SELECT is
+// per-connection state (memx.go runs the same programs through the real Handle).
 func memRunCmd(args []string) error {
 	if len(args) != 3 {
 		return fmt.Errorf("memrun <prog> <out> <scratch>")
@@ -272,6 +274,15 @@ func memRunCmd(args []string) error {
 		args  []string
 	}
 	var pendingBG []bgCmd
+	views := map[string]*server.Manager{}
+	viewOf := func(conn string) *server.Manager {
+		v, ok := views[conn]
+		if !ok {
+			v = mgr.NewConnView()
+			views[conn] = v
+		}
+		return v
+	}
 	progress, _ := os.Create(args[1] + ".progress")
 	defer progress.Close()
 	for sc.Scan() {
@@ -285,6 +296,7 @@ func memRunCmd(args []string) error {
 			dbs, _ := strconv.Atoi(fs[2])
 			cfg := setupServer(dbs, args[2])
 			mgr = server.NewManager(cfg)
+			views = map[string]*server.Manager{}
 			fmt.Fprintf(w, "CASE %s %d\n", fs[1], dbs)
 			fmt.Fprintf(w, "WD %d\n", watchdogMs)
 			progress.Seek(0, 0)
@@ -308,6 +320,7 @@ func memRunCmd(args []string) error {
 			var wg sync.WaitGroup
 			for i, b := range pendingBG {
 				wg.Add(1)
+				bv := viewOf(b.conn)
 				go func(i int, b bgCmd) {
 					defer wg.Done()
 					time.Sleep(time.Duration(b.delay) * time.Millisecond)
@@ -316,11 +329,11 @@ func memRunCmd(args []string) error {
 						bc = append(bc, unhx(h))
 					}
 					bgAt[i] = time.Now()
-					bgOut[i] = execStep(mgr, bc)
+					bgOut[i] = execStep(bv, bc)
 				}(i, b)
 			}
 			now := time.Now()
-			out := execStep(mgr, cmd)
+			out := execStep(viewOf(fs[1]), cmd)
 			end := time.Now()
 			wg.Wait()
 			order := make([]int, len(pendingBG))
